@@ -1823,7 +1823,15 @@ class Executor:
             s2 = st.clone()
             for a, v in zip(node.args.args, args):
                 s2.env[a.arg] = v
-            return self.eval1(node.body, s2)
+            r = self.eval1(node.body, s2)
+            # definitional facts made while evaluating the body (the integer of a COUNT
+            # reduction, ...) belong to whoever evaluates the lambda
+            sink = SINK[-1] if SINK else st
+            for f in s2.facts[len(st.facts):]:
+                sink.facts.append(f)
+            for ca in s2.count_aggs[len(st.count_aggs):]:
+                sink.count_aggs.append(ca)
+            return r
         f = SFunc(fn, 'lambda')
         f.argnames = [a.arg for a in node.args.args]
         return [(st, f)]
